@@ -111,6 +111,20 @@ type MessageUserOneB struct { // the same fields without the arrays: a different
 	F float32 `mavext:"true"`
 }
 
+// small messages at the id boundaries of the two frame versions
+type MessageUserID254 struct{ V uint8 }
+type MessageUserID255 struct{ V uint16 }
+type MessageUserID256 struct{ V uint8 }
+type MessageUserID65535 struct{ V uint32 }
+type MessageUserID65536 struct{ V uint8 }
+type MessageUserIDMax struct{ V uint8 }
+
+func (*MessageUserID254) GetID() uint32         { return 254 }
+func (*MessageUserID255) GetID() uint32         { return 255 }
+func (*MessageUserID256) GetID() uint32         { return 256 }
+func (*MessageUserID65535) GetID() uint32       { return 65535 }
+func (*MessageUserID65536) GetID() uint32       { return 65536 }
+func (*MessageUserIDMax) GetID() uint32         { return 16777215 }
 func (*MessageUserOne) GetID() uint32           { return 50021 }
 func (*MessageUserOneB) GetID() uint32          { return 50022 }
 func (*MessageUserA) GetID() uint32             { return 50001 }
@@ -139,4 +153,5 @@ var userStructs = []message.Message{
 	&MessageUserBadType{}, &MessageUserBadNamed{}, &MessageUserBadLen{}, &UserNoPrefix{},
 }
 
-var userOne = []message.Message{&MessageUserOne{}, &MessageUserOneB{}}
+var userOne = []message.Message{&MessageUserOne{}, &MessageUserOneB{}, &MessageUserID254{}, &MessageUserID255{}, &MessageUserID256{},
+	&MessageUserID65535{}, &MessageUserID65536{}, &MessageUserIDMax{}}
